@@ -176,12 +176,19 @@ def parse_template(text, variant=None):
     return out
 
 
-STRIP_ATTR = re.compile(r"#\s*\[\s*(inline|cold|must_use|allow|track_caller|doc|derive|cfg_attr|expect|deny|warn|automatically_derived|repr|error|non_exhaustive|from|source|default)\b")
+STRIP_ATTR = re.compile(r"#\s*\[\s*(inline|cold|must_use|allow|track_caller|doc|derive|cfg_attr|expect|deny|warn|automatically_derived|repr|error|non_exhaustive|from|source)\b")
 KEEP_DERIVES = {"Clone", "Copy", "Default", "PartialEq", "Eq"}
+
+
+EXP_DBG = re.compile(r"if true\s*\{\s*if !([^{}]+?)\s*\{\s*\{\s*::core::panicking::panic_fmt\(format_args!\((?:[^;]|\n)*?\)\);\s*\}\s*\};?\s*\}")
 
 
 def apply_global_rules(text, kind, log):
     """token-level R1/R2 on an item's text."""
+    # R2 on compiler-expanded source: `debug_assert!(c, msg)` appears as `if true { if !c { { panic_fmt(..) } }; }`
+    text, c = EXP_DBG.subn(lambda m: "assert(" + m.group(1).strip() + ")", text)
+    if c:
+        log.append(f"R2 expanded debug_assert! -> assert (proof obligation) x{c}")
     toks = rs.tokenize(text)
     out = []
     k = 0
